@@ -1,5 +1,526 @@
-/- C05 — property theorems (to be written). -/
-import SoundeventModel.Basic
+/-
+  C05 — Bounds, geometric features and anchor points agree with the coordinates.
+  Property theorems only (helper lemmas live in Proofs/Lemmas/Bounds.lean).
+
+  Reading guide: `SE.Geom.bounds` models `compute_bounds`, `SE.Bnd.toShape` models
+  `geometry_to_shapely`, `SE.Bnd.features` models `compute_geometric_features`,
+  `SE.Bnd.pointAt` models `get_geometry_point`.  `IsBoundsOf b pts` says that `b` is
+  (min time, min frequency, max time, max frequency) over `pts`.
+-/
+import SoundeventModel.Bounds
+import Proofs.Lemmas.Bounds
 namespace SE.Proofs.C05
+open SE SE.Bnd SE.Proofs.Lemmas.Bounds
+
+/-! ### bounds -/
+
+/-- `compute_bounds` is read off the converted shape: the model of `compute_bounds` in
+    Geometry.lean is the envelope of the model of `geometry_to_shapely` -/
+theorem C05_bounds_via_shape (g : Geom) : (toShape g).bounds = g.bounds := by
+  cases g with
+  | timeInterval s e =>
+    -- the ring of `box(s, 0, e, MAX)` has the envelope of its two corners
+    simp only [toShape, Shape.bounds, Shape.envPts, Geom.bounds, Geom.boundPts, boxRing]
+    rw [ptsBounds_congr_mem _ _ (mem_closeRing _)]
+    simp only [ptsBounds, List.foldl, Option.some.injEq, Bounds.mk.injEq]; grind
+  | boundingBox s l e h =>
+    simp only [toShape, Shape.bounds, Shape.envPts, Geom.bounds, Geom.boundPts, boxRing]
+    rw [ptsBounds_congr_mem _ _ (mem_closeRing _)]
+    simp only [ptsBounds, List.foldl, Option.some.injEq, Bounds.mk.injEq]; grind
+  | polygon rings =>
+    -- closing the shell adds no new point
+    simp only [toShape, Shape.bounds, Shape.envPts, Geom.bounds, Geom.boundPts, polyOf]
+    exact ptsBounds_congr_mem _ _ (mem_closeRing _)
+  | multiPolygon ps =>
+    simp only [toShape, Shape.bounds, Shape.envPts, Geom.bounds, Geom.boundPts, List.map_map]
+    apply ptsBounds_congr_mem
+    intro p
+    simp only [List.mem_flatten, List.mem_map, Function.comp_apply, polyOf]
+    constructor
+    · rintro ⟨l, ⟨rings, hr, rfl⟩, hp⟩
+      exact ⟨_, ⟨rings, hr, rfl⟩, (mem_closeRing _ p).mp hp⟩
+    · rintro ⟨l, ⟨rings, hr, rfl⟩, hp⟩
+      exact ⟨_, ⟨rings, hr, rfl⟩, (mem_closeRing _ p).mpr hp⟩
+  | _ => rfl
+
+/-- bounds = (min time, min frequency, max time, max frequency) over the vertices of the
+    converted shape (for polygons: of the shell, see `C05_bounds_all_coordinates`) -/
+theorem C05_bounds_minmax (g : Geom) (b : Bounds) (h : g.bounds = some b) :
+    IsBoundsOf b g.boundPts :=
+  ptsBounds_isBoundsOf _ _ h
+
+/-- the same in terms of `listMin` / `listMax` over the two coordinate columns -/
+theorem C05_bounds_minmax_columns (g : Geom) (b : Bounds) (h : g.bounds = some b) :
+    listMin (g.boundPts.map (·.1)) = some b.st ∧ listMin (g.boundPts.map (·.2)) = some b.lo ∧
+    listMax (g.boundPts.map (·.1)) = some b.en ∧ listMax (g.boundPts.map (·.2)) = some b.hi := by
+  obtain ⟨hc, ⟨p1, hp1, e1⟩, ⟨p2, hp2, e2⟩, ⟨p3, hp3, e3⟩, ⟨p4, hp4, e4⟩⟩ := C05_bounds_minmax g b h
+  refine ⟨?_, ?_, ?_, ?_⟩
+  · rw [listMin_eq_some_iff]
+    exact ⟨List.mem_map.mpr ⟨p1, hp1, e1⟩, by
+      intro x hx; obtain ⟨p, hp, rfl⟩ := List.mem_map.mp hx; exact (hc p hp).1⟩
+  · rw [listMin_eq_some_iff]
+    exact ⟨List.mem_map.mpr ⟨p2, hp2, e2⟩, by
+      intro x hx; obtain ⟨p, hp, rfl⟩ := List.mem_map.mp hx; exact (hc p hp).2.2.1⟩
+  · rw [listMax_eq_some_iff]
+    exact ⟨List.mem_map.mpr ⟨p3, hp3, e3⟩, by
+      intro x hx; obtain ⟨p, hp, rfl⟩ := List.mem_map.mp hx; exact (hc p hp).2.1⟩
+  · rw [listMax_eq_some_iff]
+    exact ⟨List.mem_map.mpr ⟨p4, hp4, e4⟩, by
+      intro x hx; obtain ⟨p, hp, rfl⟩ := List.mem_map.mp hx; exact (hc p hp).2.2.2⟩
+
+/-- the bounding rectangle is unique: *exactly* (min, min, max, max) -/
+theorem C05_bounds_unique (b b' : Bounds) (pts : List Pt)
+    (h : IsBoundsOf b pts) (h' : IsBoundsOf b' pts) : b = b' :=
+  isBoundsOf_unique b b' pts h h'
+
+/-- bounds are undefined only for a geometry without vertices (no valid geometry) -/
+theorem C05_bounds_defined (g : Geom) : g.bounds = none ↔ g.boundPts = [] :=
+  ptsBounds_eq_none _
+
+theorem C05_bounds_ordered (g : Geom) (b : Bounds) (h : g.bounds = some b) :
+    b.st ≤ b.en ∧ b.lo ≤ b.hi :=
+  isBoundsOf_ordered b _ (C05_bounds_minmax g b h)
+
+/-- time-only geometries span the full band `[0, MAXF]` -/
+theorem C05_time_only_full_band (t s e : Rat) :
+    (Geom.timeStamp t).bounds = some ⟨t, 0, t, MAXF⟩ ∧
+    (s ≤ e → (Geom.timeInterval s e).bounds = some ⟨s, 0, e, MAXF⟩) := by
+  have hM : (0 : Rat) ≤ MAXF := by decide +kernel
+  constructor
+  · simp only [Geom.bounds, Geom.boundPts, ptsBounds, List.foldl, Option.some.injEq, Bounds.mk.injEq]
+    grind
+  · intro h
+    simp only [Geom.bounds, Geom.boundPts, ptsBounds, List.foldl, Option.some.injEq, Bounds.mk.injEq]
+    grind
+
+/-- a stored box is its own bounds -/
+theorem C05_box_bounds (s l e h : Rat) (h1 : s ≤ e) (h2 : l ≤ h) :
+    (Geom.boundingBox s l e h).bounds = some ⟨s, l, e, h⟩ := by
+  simp only [Geom.bounds, Geom.boundPts, ptsBounds, List.foldl, Option.some.injEq, Bounds.mk.injEq]
+  grind
+
+private theorem hole_in_env (rings : List (List Pt)) (hh : holesInShellEnvelope rings = true)
+    (p : Pt) (hp : p ∈ rings.tail.flatten) :
+    ∃ bi, ptsBounds (rings.headD []) = some bi ∧
+      bi.st ≤ p.1 ∧ p.1 ≤ bi.en ∧ bi.lo ≤ p.2 ∧ p.2 ≤ bi.hi := by
+  unfold holesInShellEnvelope at hh
+  split at hh
+  · simp only [List.isEmpty_iff] at hh
+    rw [hh] at hp; simp at hp
+  · rename_i bi hbi
+    refine ⟨bi, hbi, ?_⟩
+    have := List.all_eq_true.mp hh p hp
+    simpa [Bool.and_eq_true, decide_eq_true_eq, and_assoc] using this
+
+/-- with the holes of every polygon inside the envelope of its shell (every OGC-valid
+    polygon), the bounds are (min, min, max, max) over *all* stored coordinates, hole
+    vertices included; time-only types store no frequency and are covered by
+    `C05_time_only_full_band` -/
+theorem C05_bounds_all_coordinates (g : Geom) (b : Bounds) (hto : timeOnly g = false)
+    (hh : HolesInside g = true) (h : g.bounds = some b) : IsBoundsOf b (allPts g) := by
+  have hb := C05_bounds_minmax g b h
+  cases g with
+  | timeStamp t => simp [timeOnly] at hto
+  | timeInterval s e => simp [timeOnly] at hto
+  | point t f => simpa [allPts, Geom.boundPts] using hb
+  | lineString pts => simpa [allPts, Geom.boundPts] using hb
+  | boundingBox s l e h' => simpa [allPts, Geom.boundPts] using hb
+  | multiPoint pts => simpa [allPts, Geom.boundPts] using hb
+  | multiLineString ls => simpa [allPts, Geom.boundPts] using hb
+  | polygon rings =>
+    simp only [Geom.boundPts] at hb
+    simp only [allPts]
+    cases rings with
+    | nil => simp [Geom.bounds, Geom.boundPts, ptsBounds] at h
+    | cons shell holes =>
+      simp only [List.headD_cons] at hb
+      refine isBoundsOf_extend b shell _ (by intro p hp; simp [hp]) ?_ hb
+      intro p hp
+      simp only [List.flatten_cons, List.mem_append] at hp
+      rcases hp with hp | hp
+      · exact hb.contains p hp
+      · obtain ⟨bi, hbi, hin⟩ := hole_in_env (shell :: holes) hh p (by simpa using hp)
+        simp only [List.headD_cons] at hbi
+        have : bi = b := by
+          have := h; simp only [Geom.bounds, Geom.boundPts, List.headD_cons] at this
+          rw [hbi] at this; simpa using this
+        subst this; exact hin
+  | multiPolygon ps =>
+    simp only [Geom.boundPts] at hb
+    simp only [allPts]
+    refine isBoundsOf_extend b _ _ ?_ ?_ hb
+    · -- every shell vertex is a stored coordinate
+      intro p hp
+      obtain ⟨l, hl, hpl⟩ := List.mem_flatten.mp hp
+      obtain ⟨rings, hr, rfl⟩ := List.mem_map.mp hl
+      refine List.mem_flatten.mpr ⟨rings.flatten, List.mem_map.mpr ⟨rings, hr, rfl⟩, ?_⟩
+      cases rings with
+      | nil => simp at hpl
+      | cons shell holes => simp only [List.headD_cons] at hpl; simp [hpl]
+    · intro p hp
+      obtain ⟨l, hl, hpl⟩ := List.mem_flatten.mp hp
+      obtain ⟨rings, hr, rfl⟩ := List.mem_map.mp hl
+      have hhr : holesInShellEnvelope rings = true := by
+        simp only [HolesInside, List.all_eq_true] at hh; exact hh rings hr
+      cases rings with
+      | nil => simp at hpl
+      | cons shell holes =>
+        simp only [List.flatten_cons, List.mem_append] at hpl
+        have hshell : ∀ q ∈ shell, q ∈ (ps.map (fun rings => rings.headD [])).flatten := by
+          intro q hq
+          exact List.mem_flatten.mpr ⟨shell, List.mem_map.mpr ⟨shell :: holes, hr, by simp⟩, hq⟩
+        rcases hpl with hpl | hpl
+        · exact hb.contains p (hshell p hpl)
+        · obtain ⟨bi, hbi, hin⟩ := hole_in_env (shell :: holes) hhr p (by simpa using hpl)
+          simp only [List.headD_cons] at hbi
+          obtain ⟨_, ⟨q1, hq1, e1⟩, ⟨q2, hq2, e2⟩, ⟨q3, hq3, e3⟩, ⟨q4, hq4, e4⟩⟩ :=
+            ptsBounds_isBoundsOf shell bi hbi
+          have c1 := hb.contains q1 (hshell q1 hq1)
+          have c2 := hb.contains q2 (hshell q2 hq2)
+          have c3 := hb.contains q3 (hshell q3 hq3)
+          have c4 := hb.contains q4 (hshell q4 hq4)
+          grind
+
+/-- the bounds are *determined*: an observed 4-tuple passes the executable statement
+    `boundsHolds` (contains every coordinate, every side attained; time-only types over the
+    band `[0, MAXF]`) iff it is the model's bounds -/
+theorem C05_bounds_holds_iff (g : Geom) (b b' : Bounds) (hh : HolesInside g = true)
+    (h : g.bounds = some b') : boundsHolds g b = true ↔ b = b' := by
+  have hspec : IsBoundsOf b' (specPts g) := by
+    unfold specPts
+    by_cases hto : timeOnly g = true
+    · simp only [hto, if_true]; exact C05_bounds_minmax g b' h
+    · simp only [hto]; exact C05_bounds_all_coordinates g b' (by simpa using hto) hh h
+  unfold boundsHolds
+  rw [isBoundsOfB_iff]
+  constructor
+  · intro hb; exact isBoundsOf_unique b b' _ hb hspec
+  · rintro rfl; exact hspec
+
+/-! ### the shapely conversion -/
+
+/-- kind of the converted shape, per geometry type -/
+theorem C05_conversion_kind (g : Geom) :
+    (toShape g).kind =
+      match g with
+      | .timeStamp _ => "LineString"
+      | .timeInterval .. => "Polygon"
+      | .point .. => "Point"
+      | .lineString _ => "LineString"
+      | .polygon _ => "Polygon"
+      | .boundingBox .. => "Polygon"
+      | .multiPoint _ => "MultiPoint"
+      | .multiLineString _ => "MultiLineString"
+      | .multiPolygon _ => "MultiPolygon" := by
+  cases g <;> rfl
+
+private theorem map_closeRing_of_closed (rs : List (List Pt)) (h : rs.all ringClosed = true) :
+    rs.map closeRing = rs := by
+  calc rs.map closeRing = rs.map id :=
+        List.map_congr_left (fun r hr => closeRing_of_closed r (List.all_eq_true.mp h r hr))
+    _ = rs := List.map_id _
+
+private theorem polyOf_back (rings : List (List Pt)) (hne : rings ≠ []) (h : rings.all ringClosed = true) :
+    (polyOf rings).1 :: (polyOf rings).2 = rings := by
+  cases rings with
+  | nil => exact absurd rfl hne
+  | cons a as =>
+    simp only [List.all_cons, Bool.and_eq_true] at h
+    simp only [polyOf, List.headD_cons, List.tail_cons, closeRing_of_closed a h.1,
+      map_closeRing_of_closed as h.2]
+
+/-- the six types whose coordinates are vertices are converted without loss: kind, part
+    structure, ring structure and every coordinate in order can be read back (rings stored
+    closed; shapely closes an open ring, see `C05_conversion_vertex_set`) -/
+theorem C05_conversion_lossless (g : Geom) (hto : timeOnly g = false)
+    (hbox : ∀ s l e h, g ≠ .boundingBox s l e h)
+    (hrings : ∀ rings, g = .polygon rings → rings ≠ [])
+    (hpolys : ∀ ps, g = .multiPolygon ps → ∀ rings ∈ ps, rings ≠ [])
+    (hcl : RingsClosed g = true) :
+    (toShape g).back = g ∧ (toShape g).kind = g.tag ∧ (toShape g).coords = allPts g := by
+  cases g with
+  | timeStamp t => simp [timeOnly] at hto
+  | timeInterval s e => simp [timeOnly] at hto
+  | boundingBox s l e h => exact absurd rfl (hbox s l e h)
+  | point t f => exact ⟨rfl, rfl, rfl⟩
+  | lineString pts => exact ⟨rfl, rfl, rfl⟩
+  | multiPoint pts => exact ⟨rfl, rfl, rfl⟩
+  | multiLineString ls => exact ⟨rfl, rfl, rfl⟩
+  | polygon rings =>
+    have hb := polyOf_back rings (hrings rings rfl) hcl
+    refine ⟨?_, rfl, ?_⟩
+    · simp only [toShape, Shape.back, hb]
+    · simp only [toShape, Shape.coords, allPts]
+      rw [← List.flatten_cons, hb]
+  | multiPolygon ps =>
+    have hb : ∀ rings ∈ ps, (polyOf rings).1 :: (polyOf rings).2 = rings := fun rings hr =>
+      polyOf_back rings (hpolys ps rfl rings hr) (List.all_eq_true.mp hcl rings hr)
+    refine ⟨?_, rfl, ?_⟩
+    · simp only [toShape, Shape.back, List.map_map, Geom.multiPolygon.injEq]
+      calc ps.map ((fun p : List Pt × List (List Pt) => p.1 :: p.2) ∘ polyOf)
+          = ps.map id := List.map_congr_left (by intro r hr; simpa using hb r hr)
+        _ = ps := List.map_id _
+    · simp only [toShape, Shape.coords, allPts, List.map_map]
+      congr 1
+      apply List.map_congr_left
+      intro rings hr
+      simp only [Function.comp_apply]
+      rw [← List.flatten_cons, hb rings hr]
+
+/-- whatever the rings look like, the converted shape has exactly the stored coordinates as
+    its vertices (closing a ring repeats a vertex, it adds no new one) -/
+theorem C05_conversion_vertex_set (g : Geom) (hto : timeOnly g = false)
+    (hbox : ∀ s l e h, g ≠ .boundingBox s l e h) (p : Pt) :
+    p ∈ (toShape g).coords ↔ p ∈ allPts g := by
+  have hpoly : ∀ rings : List (List Pt),
+      p ∈ (polyOf rings).1 ++ (polyOf rings).2.flatten ↔ p ∈ rings.flatten := by
+    intro rings
+    cases rings with
+    | nil => simp [polyOf, closeRing]
+    | cons a as =>
+      simp only [polyOf, List.headD_cons, List.tail_cons, List.flatten_cons, List.mem_append,
+        mem_closeRing, List.mem_flatten, List.mem_map]
+      constructor
+      · rintro (h | ⟨l, ⟨r, hr, rfl⟩, hp⟩)
+        · exact Or.inl h
+        · exact Or.inr ⟨r, hr, (mem_closeRing r p).mp hp⟩
+      · rintro (h | ⟨r, hr, hp⟩)
+        · exact Or.inl h
+        · exact Or.inr ⟨_, ⟨r, hr, rfl⟩, (mem_closeRing r p).mpr hp⟩
+  cases g with
+  | timeStamp t => simp [timeOnly] at hto
+  | timeInterval s e => simp [timeOnly] at hto
+  | boundingBox s l e h => exact absurd rfl (hbox s l e h)
+  | point t f => rfl
+  | lineString pts => rfl
+  | multiPoint pts => rfl
+  | multiLineString ls => rfl
+  | polygon rings => simpa [toShape, Shape.coords, allPts] using hpoly rings
+  | multiPolygon ps =>
+    simp only [toShape, Shape.coords, allPts, List.map_map, List.mem_flatten, List.mem_map,
+      Function.comp_apply]
+    constructor
+    · rintro ⟨l, ⟨rings, hr, rfl⟩, hp⟩
+      exact ⟨_, ⟨rings, hr, rfl⟩, (hpoly rings).mp hp⟩
+    · rintro ⟨l, ⟨rings, hr, rfl⟩, hp⟩
+      exact ⟨_, ⟨rings, hr, rfl⟩, (hpoly rings).mpr hp⟩
+
+/-- boxes and intervals become the rectangle polygon whose vertices are exactly the four
+    corners (intervals: over the full band), time stamps the vertical segment over the band -/
+theorem C05_conversion_box (s l e h t : Rat) :
+    (∃ ring, toShape (.boundingBox s l e h) = .polygon ring [] ∧
+      ∀ p, p ∈ ring ↔ p ∈ [(s, l), (s, h), (e, l), (e, h)]) ∧
+    (∃ ring, toShape (.timeInterval s e) = .polygon ring [] ∧
+      ∀ p, p ∈ ring ↔ p ∈ [(s, 0), (s, MAXF), (e, 0), (e, MAXF)]) ∧
+    toShape (.timeStamp t) = .lineString [(t, 0), (t, MAXF)] := by
+  refine ⟨⟨boxRing s l e h, rfl, ?_⟩, ⟨boxRing s 0 e MAXF, rfl, ?_⟩, rfl⟩ <;>
+  · intro p; simp only [boxRing, mem_closeRing, List.mem_cons, List.not_mem_nil, or_false]; grind
+
+/-! ### features -/
+
+private theorem boundsFeatures_ok (b : Bounds) (n : Nat) :
+    ∀ nv ∈ boundsFeatures b, ofBounds nv.1 b n = some nv.2 := by
+  intro nv hnv
+  simp only [boundsFeatures, List.mem_cons, List.not_mem_nil, or_false] at hnv
+  rcases hnv with rfl | rfl | rfl | rfl <;> simp [ofBounds, fDuration, fLow, fHigh, fBandwidth]
+
+private theorem segFeatures_ok (b : Bounds) (n : Nat) :
+    ∀ nv ∈ boundsFeatures b ++ [(fSegments, (n : Rat))], ofBounds nv.1 b n = some nv.2 := by
+  intro nv hnv
+  rcases List.mem_append.mp hnv with h | h
+  · exact boundsFeatures_ok b n nv h
+  · simp only [List.mem_cons, List.not_mem_nil, or_false] at h
+    subst h; simp [ofBounds, fDuration, fLow, fHigh, fBandwidth, fSegments]
+
+/-- every reported feature is what its name says, computed from `compute_bounds` of the
+    same geometry (and the number of parts); each type reports exactly its list of names -/
+theorem C05_features_consistent (g : Geom) (b : Bounds) (ho : Ordered g) (hb : g.bounds = some b) :
+    ∃ fs, features g = some fs ∧ fs.map (·.1) = expectedNames g ∧
+      ∀ nv ∈ fs, ofBounds nv.1 b (parts g) = some nv.2 := by
+  have hs : (toShape g).bounds = some b := by rw [C05_bounds_via_shape]; exact hb
+  cases g with
+  | timeStamp t =>
+    have := (C05_time_only_full_band t 0 0).1
+    rw [this] at hb; cases hb
+    exact ⟨_, rfl, rfl, by simp [ofBounds, fDuration]; grind⟩
+  | timeInterval s e =>
+    have := (C05_time_only_full_band 0 s e).2 ho
+    rw [this] at hb; cases hb
+    exact ⟨_, rfl, rfl, by simp [ofBounds, fDuration]⟩
+  | boundingBox s l e h =>
+    have := C05_box_bounds s l e h ho.1 ho.2
+    rw [this] at hb; cases hb
+    refine ⟨_, rfl, rfl, ?_⟩
+    intro nv hnv
+    simp only [List.mem_cons, List.not_mem_nil, or_false] at hnv
+    rcases hnv with rfl | rfl | rfl | rfl <;> simp [ofBounds, fDuration, fLow, fHigh, fBandwidth]
+  | point t f =>
+    simp only [Geom.bounds, Geom.boundPts, ptsBounds, List.foldl, Option.some.injEq] at hb
+    subst hb
+    have hf : features (.point t f) = some [(fDuration, 0), (fLow, f), (fHigh, f), (fBandwidth, 0)] := by
+      simp only [features, hs, Option.map, Geom.tag]
+      simp [shapeFeatures]
+    refine ⟨_, hf, rfl, ?_⟩
+    intro nv hnv
+    simp only [List.mem_cons, List.not_mem_nil, or_false] at hnv
+    rcases hnv with rfl | rfl | rfl | rfl <;> simp [ofBounds, fDuration, fLow, fHigh, fBandwidth] <;> grind
+  | lineString pts =>
+    have hf : features (.lineString pts) = some (boundsFeatures b) := by
+      simp only [features, hs, Option.map, Geom.tag]
+      simp [shapeFeatures]
+    exact ⟨_, hf, rfl, boundsFeatures_ok b _⟩
+  | polygon rings =>
+    have hf : features (.polygon rings) = some (boundsFeatures b) := by
+      simp only [features, hs, Option.map, Geom.tag]
+      simp [shapeFeatures]
+    exact ⟨_, hf, rfl, boundsFeatures_ok b _⟩
+  | multiPoint pts =>
+    have hf : features (.multiPoint pts) = some (boundsFeatures b ++ [(fSegments, (pts.length : Rat))]) := by
+      simp only [features, hs, Option.map, Geom.tag]
+      simp [shapeFeatures, toShape, Shape.numParts]
+    exact ⟨_, hf, rfl, segFeatures_ok b _⟩
+  | multiLineString ls =>
+    have hf : features (.multiLineString ls) = some (boundsFeatures b ++ [(fSegments, (ls.length : Rat))]) := by
+      simp only [features, hs, Option.map, Geom.tag]
+      simp [shapeFeatures, toShape, Shape.numParts]
+    exact ⟨_, hf, rfl, segFeatures_ok b _⟩
+  | multiPolygon ps =>
+    have hf : features (.multiPolygon ps) = some (boundsFeatures b ++ [(fSegments, (ps.length : Rat))]) := by
+      simp only [features, hs, Option.map, Geom.tag]
+      simp [shapeFeatures, toShape, Shape.numParts]
+    exact ⟨_, hf, rfl, segFeatures_ok b _⟩
+
+/-- consequences the statement names: durations and bandwidths are never negative, a point
+    and a time stamp have zero extent -/
+theorem C05_features_nonneg (g : Geom) (fs : List (String × Rat)) (ho : Ordered g)
+    (hf : features g = some fs) : ∀ nv ∈ fs, nv.1 = fDuration ∨ nv.1 = fBandwidth → 0 ≤ nv.2 := by
+  have hbd : ∃ b, g.bounds = some b := by
+    cases hgb : g.bounds with
+    | some b => exact ⟨b, rfl⟩
+    | none =>
+      exfalso
+      have hs : (toShape g).bounds = none := by rw [C05_bounds_via_shape]; exact hgb
+      cases g <;> simp_all [features, Geom.bounds, Geom.boundPts, ptsBounds]
+  obtain ⟨b, hb⟩ := hbd
+  obtain ⟨fs', hf', _, hall⟩ := C05_features_consistent g b ho hb
+  have : fs' = fs := by rw [hf'] at hf; simpa using hf
+  subst this
+  obtain ⟨o1, o2⟩ := C05_bounds_ordered g b hb
+  intro nv hnv hname
+  have := hall nv hnv
+  rcases hname with hn | hn <;> rw [hn] at this <;>
+    simp [ofBounds, fDuration, fLow, fHigh, fBandwidth] at this <;> grind
+
+/-- the feature list is *determined*: an observed list passes the executable statement
+    `featuresHolds` (right names in order, every value what its name says of the bounds) iff it
+    is the model's list -/
+theorem C05_features_holds_iff (g : Geom) (b : Bounds) (fs : List (String × Rat)) (ho : Ordered g)
+    (hb : g.bounds = some b) : featuresHolds g b fs = true ↔ features g = some fs := by
+  obtain ⟨fs', hf', hn', hv'⟩ := C05_features_consistent g b ho hb
+  simp only [featuresHolds, Bool.and_eq_true, decide_eq_true_eq, List.all_eq_true]
+  constructor
+  · rintro ⟨hn, hv⟩
+    rw [hf']; congr 1
+    exact assoc_ext (fun n => ofBounds n b (parts g)) fs' fs (by rw [hn, hn']) hv' hv
+  · intro h
+    have : fs' = fs := by rw [hf'] at h; simpa using h
+    subst this; exact ⟨hn', hv'⟩
+
+/-- `_COMPUTE_FEATURES` covers every geometry type as soon as it has the nine tags as keys
+    (instantiated at the keys extracted from the code on every run) -/
+theorem C05_feature_table_total (keys : List String) (h : ∀ k ∈ featureTypes, k ∈ keys) (g : Geom) :
+    g.tag ∈ keys := by
+  apply h
+  cases g <;> simp [Geom.tag, featureTypes]
+
+/-! ### anchor points -/
+
+/-- the table of the nine named positions: corner, edge midpoint or centre of the bounds.
+    `top` is the high frequency, `right` is the end time; a swap of left/right or
+    top/bottom for any one name contradicts this -/
+theorem C05_points_table (lib : String → Pt) (b : Bounds) :
+    pointAt lib "bottom-left" b = .ok (b.st, b.lo) ∧
+    pointAt lib "bottom-right" b = .ok (b.en, b.lo) ∧
+    pointAt lib "top-left" b = .ok (b.st, b.hi) ∧
+    pointAt lib "top-right" b = .ok (b.en, b.hi) ∧
+    pointAt lib "center-left" b = .ok (b.st, (b.lo + b.hi) / 2) ∧
+    pointAt lib "center-right" b = .ok (b.en, (b.lo + b.hi) / 2) ∧
+    pointAt lib "top-center" b = .ok ((b.st + b.en) / 2, b.hi) ∧
+    pointAt lib "bottom-center" b = .ok ((b.st + b.en) / 2, b.lo) ∧
+    pointAt lib "center" b = .ok ((b.st + b.en) / 2, (b.lo + b.hi) / 2) := by
+  refine ⟨?_, ?_, ?_, ?_, ?_, ?_, ?_, ?_, ?_⟩ <;> rfl
+
+/-- centroid and point-on-surface are whatever shapely answers (monitored, not modelled) -/
+theorem C05_points_delegated (lib : String → Pt) (b : Bounds) :
+    pointAt lib "centroid" b = .ok (lib "centroid") ∧
+    pointAt lib "point_on_surface" b = .ok (lib "point_on_surface") := ⟨rfl, rfl⟩
+
+theorem mem_boundsPositions (pos : String) : pos ∈ boundsPositions ↔
+    pos = "bottom-left" ∨ pos = "bottom-right" ∨ pos = "top-left" ∨ pos = "top-right" ∨
+    pos = "center-left" ∨ pos = "center-right" ∨ pos = "top-center" ∨ pos = "bottom-center" ∨
+    pos = "center" := by
+  simp [boundsPositions]
+
+/-- every one of the nine positions is a point of the closed bounding rectangle -/
+theorem C05_points_inside (lib : String → Pt) (b : Bounds) (pos : String)
+    (h1 : b.st ≤ b.en) (h2 : b.lo ≤ b.hi) (hp : pos ∈ boundsPositions) :
+    ∃ p, pointAt lib pos b = .ok p ∧ inside b p = true := by
+  obtain ⟨t1, t2, t3, t4, t5, t6, t7, t8, t9⟩ := C05_points_table lib b
+  rw [mem_boundsPositions] at hp
+  rcases hp with rfl | rfl | rfl | rfl | rfl | rfl | rfl | rfl | rfl
+  · exact ⟨_, t1, by simp [inside]; grind⟩
+  · exact ⟨_, t2, by simp [inside]; grind⟩
+  · exact ⟨_, t3, by simp [inside]; grind⟩
+  · exact ⟨_, t4, by simp [inside]; grind⟩
+  · exact ⟨_, t5, by simp [inside]; grind⟩
+  · exact ⟨_, t6, by simp [inside]; grind⟩
+  · exact ⟨_, t7, by simp [inside]; grind⟩
+  · exact ⟨_, t8, by simp [inside]; grind⟩
+  · exact ⟨_, t9, by simp [inside]; grind⟩
+
+/-- … in particular for the bounds of any geometry -/
+theorem C05_points_inside_geometry (lib : String → Pt) (g : Geom) (b : Bounds) (pos : String)
+    (hb : g.bounds = some b) (hp : pos ∈ boundsPositions) :
+    ∃ p, pointAt lib pos b = .ok p ∧ inside b p = true :=
+  let ⟨o1, o2⟩ := C05_bounds_ordered g b hb
+  C05_points_inside lib b pos o1 o2 hp
+
+/-- a name outside the `Positions` literal raises `ValueError`; a name inside never raises -/
+theorem C05_unknown_position_rejected (lib : String → Pt) (b : Bounds) (pos : String) :
+    (pos ∉ positionNames → pointAt lib pos b = .error .invalid) ∧
+    (pos ∈ positionNames → ∃ p, pointAt lib pos b = .ok p) := by
+  constructor
+  · intro h; simp [pointAt, h]
+  · intro h
+    simp only [positionNames, List.mem_cons, List.not_mem_nil, or_false] at h
+    rcases h with rfl | rfl | rfl | rfl | rfl | rfl | rfl | rfl | rfl | rfl | rfl <;>
+      exact ⟨_, rfl⟩
+
+-- non-vacuity: concrete geometries (a polygon with a hole, a multi-polygon, a degenerate line)
+example : (Geom.polygon [[(1, 2), (5, 2), (3, 7), (1, 2)], [(2, 3), (3, 3), (3, 4), (2, 3)]]).bounds
+    = some ⟨1, 2, 5, 7⟩ := by decide +kernel
+example : HolesInside (.polygon [[(1, 2), (5, 2), (3, 7), (1, 2)], [(2, 3), (3, 3), (3, 4), (2, 3)]])
+    = true := by decide +kernel
+example : features (.multiPolygon [[[(1, 2), (5, 2), (3, 7), (1, 2)]], [[(6, 1), (8, 1), (7, 3), (6, 1)]]])
+    = some [("duration", 7), ("low_freq", 1), ("high_freq", 7), ("bandwidth", 6), ("num_segments", 2)] := by
+  decide +kernel
+example : features (.lineString [(1, 4), (1, 4)])
+    = some [("duration", 0), ("low_freq", 4), ("high_freq", 4), ("bandwidth", 0)] := by decide +kernel
+example : Ordered (.boundingBox 1 2 3 4) := by decide +kernel
+example : (pointAt (fun _ => (0, 0)) "top-left" ⟨1, 2, 3, 4⟩).toOption = some (1, 4) := by decide +kernel
+example : (pointAt (fun _ => (0, 0)) "center-right" ⟨1, 2, 3, 4⟩).toOption = some (3, 3) := by decide +kernel
+example : (pointAt (fun _ => (0, 0)) "left-top" ⟨1, 2, 3, 4⟩).toOption = none := by decide +kernel
+-- the shell-only reading of polygon bounds is not vacuous: a hole outside the shell is ignored
+example : (Geom.polygon [[(1, 2), (5, 2), (3, 7), (1, 2)], [(8, 8), (9, 8), (9, 9), (8, 8)]]).bounds
+    = some ⟨1, 2, 5, 7⟩ := by decide +kernel
+
+-- ring closure as shapely does it: open ring closed, closed three-vertex ring padded, closed ring kept
+example : toShape (.polygon [[(1, 2), (2, 2), (3, 5)]]) = .polygon [(1, 2), (2, 2), (3, 5), (1, 2)] [] := by
+  decide +kernel
+example : toShape (.polygon [[(1, 2), (2, 2), (1, 2)]]) = .polygon [(1, 2), (2, 2), (1, 2), (1, 2)] [] := by
+  decide +kernel
+example : RingsClosed (.polygon [[(1, 2), (5, 2), (3, 7), (1, 2)]]) = true := by decide +kernel
+example : boundsHolds (.timeInterval 1 3) ⟨1, 0, 3, MAXF⟩ = true := by decide +kernel
+example : boundsHolds (.timeInterval 1 3) ⟨1, 0, 3, 4⟩ = false := by decide +kernel
 
 end SE.Proofs.C05
